@@ -186,6 +186,7 @@ impl Prop for C17 {
       Leg { name: "a: mappings strings", source: Cases::Generated(Box::new(mappings_strategy), 500_000, 6_000_000) },
       Leg { name: "b: JSON bytes", source: Cases::Generated(Box::new(json_strategy), 300_000, 4_000_000) },
       Leg { name: "c: wild trees", source: Cases::Generated(Box::new(tree_strategy), 200_000, 3_000_000) },
+      Leg { name: "d: SourceMapSource with a line longer than 64 KiB", source: Cases::Generated(Box::new(|| crate::gen::huge_line_tree().prop_map(Case::Tree).boxed()), 400, 6_000) },
     ]
   }
   fn stages(&self, ctx: &Ctx) -> Vec<Stage> {
